@@ -994,6 +994,16 @@ type swamp struct {
 	// capMu, so existing throughput is unaffected.
 	capMu sync.Mutex
 
+	// claimMu makes "select records on one index and remove them from the
+	// swamp" one step across all indexes of the swamp. Every ordered index
+	// (and each sort direction of it) has its own lock, so two Shift callers
+	// that walk different indexes would otherwise both copy the same record
+	// before either of them removed it. PatchExpired takes it around each
+	// per-record patch, so that it never patches a record a Shift caller is
+	// in the middle of removing. Lock order: claimMu, then index locks /
+	// record guards.
+	claimMu sync.Mutex
+
 	// creatingTreasures tracks treasures that have been created via CreateTreasure but not yet
 	// persisted (no Save call). Concurrent CreateTreasure calls for the same key must return the
 	// same in-flight treasure object so that subsequent guarded operations serialize correctly.
@@ -2743,6 +2753,7 @@ func (s *swamp) CloneAndDeleteExpiredTreasures(howMany int32) ([]treasure.Treasu
 	s.buildBeacon(s.expirationTimeBeaconASC, s.expirationTimeBeaconDESC, BeaconTypeExpirationTime)
 
 	// shift the expired treasures from the swamp
+	s.claimMu.Lock()
 	shiftedTreasures := s.expirationTimeBeaconASC.ShiftExpired(int(howMany))
 	verifhook.Point("swamp.shift.afterSelect")
 
@@ -2752,6 +2763,7 @@ func (s *swamp) CloneAndDeleteExpiredTreasures(howMany int32) ([]treasure.Treasu
 		// A lejárt treasureok esetében mindig valódi törlést végzünk és nem csak "törölt" flaggel jelöljük meg a treasuret
 		s.deleteHandler(d.GetKey(), false)
 	}
+	s.claimMu.Unlock()
 
 	// destroy the swamp if there is no treasure in it
 	remainingCount := s.beaconKey.Count()
@@ -2824,6 +2836,7 @@ func (s *swamp) CloneAndDeleteMatchingTreasures(beaconType BeaconType, order Bea
 		return nil, false, errors.New("beacon not available for the requested type/order")
 	}
 
+	s.claimMu.Lock()
 	shiftedTreasures, capReached := bcn.ShiftMatching(int(howMany), predicate, capPredicate, int(capMax))
 	verifhook.Point("swamp.shift.afterSelect")
 
@@ -2832,6 +2845,7 @@ func (s *swamp) CloneAndDeleteMatchingTreasures(beaconType BeaconType, order Bea
 	for _, d := range shiftedTreasures {
 		s.deleteHandler(d.GetKey(), false)
 	}
+	s.claimMu.Unlock()
 
 	// Auto-destroy on empty, mirroring CloneAndDeleteExpiredTreasures.
 	if s.beaconKey.Count() == 0 {
